@@ -82,9 +82,14 @@ XProgs == {[x |-> "unknown-target", line |-> l, im |-> i] : l \in {"map B Zz", "
             \* field settings on a method whose target is not a struct or a pointer to one cannot take effect: generation must fail
             \cup {[x |-> "nonstruct", line |-> l, tgt |-> t] : l \in {"map Inner.B A", "ignore A", "ignoreMissing", "matchIgnoreCase", "ignoreUnexported", "autoMap Inner", "update:ignoreZeroValueField"},
                                                                t \in {"list", "ptrptr", "map"}}
+            \* misc: (nested) `map X Name` on the method must not reach into the unnamed struct field Contact{Name}: vals = <<Name, Contact.Name>>;
+            \*       (two-automap) two autoMap lines both count: vals = <<Street (from Home), Title (from Job)>>;
+            \*       (path-slice) `map Meta.Tags Tags` through a pointer: the slice arrives, and nil Meta gives nil Tags without a panic
+            \cup {[x |-> "misc", sub |-> sb] : sb \in {"nested", "two-automap", "path-slice"}}
             \cup {[x |-> "reuse", setting |-> st, second |-> sc] : st \in {"none", "map", "ignore", "autoMap"}, sc \in {"none", "slice", "value"}}
 XExpect(q) ==
   CASE q.x \in {"unknown-target", "nonstruct"} -> [gen |-> "fail", val |-> 0]
+    [] q.x = "misc" -> [gen |-> "ok", val |-> 0, vals |-> CASE q.sub = "nested" -> <<1, 3>> [] q.sub = "two-automap" -> <<4, 5>> [] OTHER -> <<7, 99>>]
     [] q.x = "reuse" -> [gen |-> IF q.setting # "none" /\ q.second # "none" THEN "fail" ELSE "ok", val |-> 0]
     [] q.x = "method" ->
          LET exact == (IF q.field = "Name" THEN {"f"} ELSE {}) \cup (IF q.meth = "Name" THEN {"m"} ELSE {})
